@@ -1598,8 +1598,12 @@ skip_cpp_comment(int c) {
       _comments.push_back(comment);
     }
 
-    while (c != EOF && c != '\n') {
+    // A backslash at the end of the line splices the next line onto the
+    // comment.
+    int prev = 0;
+    while (c != EOF && (c != '\n' || prev == '\\')) {
       comment->_comment += c;
+      prev = c;
       c = get();
     }
 
@@ -1609,7 +1613,9 @@ skip_cpp_comment(int c) {
     _last_cpp_comment = true;
 
   } else {
-    while (c != EOF && c != '\n') {
+    int prev = 0;
+    while (c != EOF && (c != '\n' || prev == '\\')) {
+      prev = c;
       c = get();
     }
   }
